@@ -11,7 +11,7 @@ import (
 )
 
 func init() {
-	register(&PropDef{ID: "C14", Level: "exploration", Gen: genC14, Check: checkC14, Race: true})
+	register(&PropDef{ID: "C14", Stalls: true, Level: "exploration", Gen: genC14, Check: checkC14, Race: true})
 }
 
 // genC14: shared policy instances, 3-5 (thorough 8) concurrent sync/async
